@@ -84,14 +84,18 @@ def mkdiff(new_text, header, out):
         shutil.rmtree(d)
 
 
+# a failing run costs 10-20 minutes (see NOTES.md "Performance"): bin/mutants runs mutants/, the rest sits in mutants_extra/
+EXTRA = {'lineto_keeps_current_point', 'tj_without_separator', 'quote_merge_across_gap', 'ri_without_solidus'}
+for d in ('mutants', 'mutants_extra'):
+    os.makedirs(os.path.join(HERE, d), exist_ok=True)
 for name, (expect, what, fn) in MUTANTS.items():
     mkdiff(fn(fixed(src)), '# expect: %s\n# %s\n# (carries the hunks of findings/td_guard_x_fix.diff and findings/ri_without_solidus_fix.diff, see gen_mutants.py)\n' % (expect, what),
-           os.path.join(HERE, 'mutants', name + '.diff'))
+           os.path.join(HERE, 'mutants_extra' if name in EXTRA else 'mutants', name + '.diff'))
 for name, (expect, what, skip) in PINNED.items():
     t = fixed(src, skip=(skip,))
     if t == src:
         continue
-    mkdiff(t, '# expect: %s\n# %s\n' % (expect, what), os.path.join(HERE, 'mutants', name + '.diff'))
+    mkdiff(t, '# expect: %s\n# %s\n' % (expect, what), os.path.join(HERE, 'mutants_extra' if name in EXTRA else 'mutants', name + '.diff'))
 for name, fn in BENIGN.items():
     mkdiff(fn(fixed(src)), '# benign edit: must NOT be reported as failed\n', os.path.join(HERE, 'benign', name + '.diff'))
 print('mutants:', sorted(os.listdir(os.path.join(HERE, 'mutants'))))
